@@ -99,6 +99,72 @@ def _range(e, var):
     return lo, hi
 
 
+def _describe_ending(crlf, lf):
+    return 'ends in \\r\\n' if crlf else 'ends in \\n only' if lf else 'has no terminator' if lf is False else 'was not tested'
+
+
+def _line_len_paths(w, start_stmt, end_stmt, limit=200):
+    """all paths (no exception edges, each CFG node at most once per path) from start_stmt to end_stmt with the outcomes of the
+    endswith tests on line_string and the value of `line_len` as len(line_string)+offset: [({'crlf': bool, 'lf': bool}, offset|None)]"""
+    c = cfg_of(w)
+    srcs = c.nodes_of(start_stmt)
+    tgt = {n.id for n in c.nodes_of(end_stmt)}
+    out = []
+
+    def val(e, env):
+        if isinstance(e, ast.Call) and norm(e) == 'len(line_string)':
+            return 0
+        if isinstance(e, ast.Name):
+            return env.get(e.id)
+        if isinstance(e, ast.BinOp) and isinstance(e.op, (ast.Sub, ast.Add)) and isinstance(e.right, ast.Constant) and isinstance(e.right.value, int):
+            l_ = val(e.left, env)
+            return None if l_ is None else (l_ - e.right.value if isinstance(e.op, ast.Sub) else l_ + e.right.value)
+        return None
+
+    def step(node, env):
+        a = node.ast
+        if node.kind == 'stmt' and isinstance(a, ast.Assign) and len(a.targets) == 1 and isinstance(a.targets[0], ast.Name):
+            env = dict(env)
+            env[a.targets[0].id] = val(a.value, env)
+        elif node.kind == 'stmt' and isinstance(a, ast.AugAssign) and isinstance(a.target, ast.Name) and isinstance(a.op, (ast.Sub, ast.Add)) \
+                and isinstance(a.value, ast.Constant) and isinstance(a.value.value, int):
+            env = dict(env)
+            cur = env.get(a.target.id)
+            env[a.target.id] = None if cur is None else (cur - a.value.value if isinstance(a.op, ast.Sub) else cur + a.value.value)
+        return env
+
+    def test_fact(node, k):
+        e = node.ast
+        if isinstance(e, ast.Call) and norm(e.func) == 'line_string.endswith' and e.args and isinstance(e.args[0], ast.Constant):
+            if e.args[0].value == '\r\n':
+                return 'crlf', k == 'T'
+            if e.args[0].value == '\n':
+                return 'lf', k == 'T'
+        return None
+
+    def dfs(node, env, facts, seen):
+        if len(out) >= limit:
+            return
+        for m, k in node.succ:
+            if k == 'exc' or m.id in seen:
+                continue
+            f2 = facts
+            if node.kind == 'test' and k in ('T', 'F'):
+                tf = test_fact(node, k)
+                if tf is not None:
+                    if tf[0] in facts and facts[tf[0]] != tf[1]:
+                        continue
+                    f2 = dict(facts)
+                    f2[tf[0]] = tf[1]
+            if m.id in tgt:
+                out.append((f2, env.get('line_len')))
+                continue
+            dfs(m, step(m, env), f2, seen | {m.id})
+    for s_ in srcs:
+        dfs(s_, {}, {}, {s_.id})
+    return out
+
+
 def rule_b(repo, chk):
     chk.clause('C01.b', 'inside the wrapper: only ValueError is raised; the line lookup and the wrapped call are dominated by the exact range '
                         'tests 1 <= line <= len(code_lines) and 0 <= column <= line_len, with line_len excluding the \\n / \\r\\n terminator')
@@ -130,27 +196,33 @@ def rule_b(repo, chk):
         chk.ob('C01.b', w2 is None, c, 'the query runs only with 0 <= column <= line_len', w2 or '')
         ok = len(c.args) >= 3 and [norm(a) for a in c.args[:3]] == ['self', 'line', 'column']
         chk.ob('C01.b', ok, c, 'the validated (line, column) are what the query receives, in that order')
-    # line_len = len(line_string) minus the terminator
-    ll = [s for s in stmts_in(w, ast.Assign) if any(isinstance(t, ast.Name) and t.id == 'line_len' for t in s.targets)]
-    chk.ob('C01.b', len(ll) == 1 and norm(ll[0].value) == 'len(line_string)', w, 'line_len starts as len(line_string)')
+    # line_len = len(line_string) minus the terminator: decided per PATH (constant propagation along every path from the line lookup to the
+    # column default), so that it does not matter whether the computation is written with `-=`, with early returns in a helper, or nested
     ls = [s for s in stmts_in(w, ast.Assign) if any(isinstance(t, ast.Name) and t.id == 'line_string' for t in s.targets)]
     chk.ob('C01.b', len(ls) == 1 and norm(ls[0].value) == 'self._code_lines[line - 1]', w, 'line_string is the validated line')
-    augs = [s for s in stmts_in(w, ast.AugAssign) if isinstance(s.target, ast.Name) and s.target.id == 'line_len' and isinstance(s.op, ast.Sub)]
-    want = {"'\\r\\n'": 2, "'\\n'": 1}
-    seen = {}
-    for s in augs:
-        for term, amount in want.items():
-            def ends(e, pol, term=term):
-                return pol and isinstance(e, ast.Call) and norm(e.func) == 'line_string.endswith' and e.args and norm(e.args[0]) == term
-            if gate(w, s, ends) is None and isinstance(s.value, ast.Constant) and s.value.value == amount:
-                seen[term] = True
-    for term, amount in want.items():
-        chk.ob('C01.b', seen.get(term, False), w, 'line_len drops %d for a line ending in %s' % (amount, term))
-    # \n branch must not also fire for \r\n
-    for s in augs:
-        if isinstance(s.value, ast.Constant) and s.value.value == 1:
-            wit = gate(w, s, lambda e, pol: (not pol) and isinstance(e, ast.Call) and norm(e.func) == 'line_string.endswith' and norm(e.args[0]) == "'\\r\\n'")
-            chk.ob('C01.b', wit is None, s, 'the single-\\n adjustment applies only when the line does not end in \\r\\n', wit or '')
+    d_col0 = [s for s in stmts_in(w, ast.Assign) if any(isinstance(t, ast.Name) and t.id == 'column' for t in s.targets)]
+    if len(ls) == 1 and len(d_col0) == 1:
+        outcomes = _line_len_paths(w, ls[0], d_col0[0])
+        chk.floor('C01.b', len(outcomes), 3, '(paths from the line lookup to the column default)')
+        for facts, off in outcomes:
+            crlf, lf = facts.get('crlf'), facts.get('lf')
+            if lf is False:
+                crlf = False
+            if crlf is True:
+                want_ = -2
+            elif crlf is False and lf is True:
+                want_ = -1
+            elif crlf is False and lf is False:
+                want_ = 0
+            else:
+                want_ = None
+            chk.ob('C01.b', want_ is not None and off == want_, w,
+                   'line_len = len(line_string) %s on the path where the line %s' % (('%+d' % want_) if want_ else '(unchanged)' if want_ == 0 else '?',
+                                                                                     _describe_ending(crlf, lf)),
+                   'computed: len(line_string)%s' % ('%+d' % off if off is not None else ' ??'), key='line_len|%s|%s' % (crlf, lf))
+        kinds_seen = {(True if f_.get('crlf') else False, f_.get('lf')) for f_, _ in outcomes}
+        chk.ob('C01.b', any(f_.get('crlf') is True for f_, _ in outcomes) and any(f_.get('lf') is True and not f_.get('crlf') for f_, _ in outcomes),
+               w, 'both terminators (\\r\\n and \\n) are distinguished')
     # defaults: None -> last line / end of line
     d_line = [s for s in stmts_in(w, ast.Assign) if any(isinstance(t, ast.Name) and t.id == 'line' for t in s.targets)]
     ok = len(d_line) == 1 and isinstance(d_line[0].value, ast.IfExp) and norm(d_line[0].value.test) == 'line is None' and norm(d_line[0].value.orelse) == 'line'
